@@ -496,6 +496,33 @@ class FakeMultiprocessing:
     def cpu_count(self) -> int:
         return self.sim.cores
 
+    def parent_process(self):
+        """``multiprocessing.parent_process()``: None in the main process, otherwise a handle whose
+        ``is_alive()`` tells whether the simulated process that started this one still runs."""
+        t = current_task()
+        parent = getattr(t, "parent_task", None) if t is not None else None
+        if t is None or parent is None or t is self.sim.main:
+            return None
+
+        class _Parent:
+            name = parent.name
+            pid = parent.tid
+
+            @staticmethod
+            def is_alive() -> bool:
+                return parent.state not in ("done", "killed")
+
+        return _Parent()
+
+    def current_process(self):
+        t = current_task()
+
+        class _Me:
+            name = "MainProcess" if (t is None or t is self.sim.main) else t.name
+            daemon = False
+
+        return _Me()
+
     def get_start_method(self) -> str:
         return "fork"
 
